@@ -360,6 +360,11 @@ def process(unit_name, out_dir, mode='verify'):
                 first = sig.strip().lstrip('(').split(':')[0].strip()
                 if pname != first:
                     raise ExtractError('%s.%s map: closure parameter %r but sig starts with %r' % (cont, field, pname, first))
+                if ':' in params:
+                    # the closure's own parameter type is part of the code under contract (arithmetic width!)
+                    real_ty = params.split(':', 1)[1].strip()
+                    sig, nrep = re.subn(r'^(\s*\(\s*%s\s*:\s*)[^,)]+' % re.escape(pname), lambda m_: m_.group(1) + real_ty, sig, count=1)
+                    kv['sig'] = sig
             elif ckind in ('default', 'cond', 'assert'):
                 body = '{ ' + code.strip() + ' }'
                 if 'okwrap' in pos:
